@@ -42,9 +42,9 @@ class Gen:
     def spawn(self, cap=None, auto=None):
         r = self.r
         if cap is None:
-            cap = r.choice([1, 1, 2, 2, 3])
+            cap = r.choice([1, 1, 2, 2, 3]) if self.family != "time" else r.choice([1, 1, 1, 2])
         if auto is None:
-            auto = r.random() < 0.6
+            auto = r.random() < (0.6 if self.family != "time" else 0.3)
         self.emit(f"spawn {cap} {1 if auto else 0}")
         if cap > 0:
             self.strong[self.nact] = self.nact
